@@ -1,0 +1,14 @@
+//go:build verif
+
+// Verification hook for property C07 (add-only): the variable name table of the parser.
+
+package variables
+
+// VerifC07VariableNames returns name -> id for every entry of rulemapRev.
+func VerifC07VariableNames() map[string]RuleVariable {
+	m := make(map[string]RuleVariable, len(rulemapRev))
+	for k, v := range rulemapRev {
+		m[k] = v
+	}
+	return m
+}
